@@ -805,3 +805,52 @@ func runServeD2(r *Run, rng *rand.Rand, owner string) {
 	r.addCov("recorded_redirects", int64(kinds["redirect"]))
 	r.addCov("traces_validated_against_impl", int64(len(obs)))
 }
+
+// CONNECT and the trailing slash (FoxServe!Reply: tsrOK requires req.m # "CONNECT"): a CONNECT request that matches a
+// route only after a slash is added or removed is treated as unmatched, whatever the route's trailing-slash option;
+// a direct match is served. MC_Serve leaves CONNECT routes that ignore trailing slashes out of its tables because of
+// what Allow should list for OTHER methods in that corner (DESIGN.md 13.3, 12); for CONNECT requests themselves
+// nothing is open, so they are replayed here over CONNECT-only tables.
+func runConnectTsr(r *Run) {
+	pats := []string{"/t/{id}", "/t/{id}/", "/s", "/s2/", "/c/*{w}", "/c2/*{w}/", "h.example/t/{id}"}
+	for _, opt := range []string{"ign", "red", "none"} {
+		for _, global := range []bool{false, true} {
+			var gopts []fox.GlobalOption
+			gopts = append(gopts, fox.WithNoRouteHandler(specialHandler("noroute", 404)), fox.WithNoMethod(true), fox.WithAutoOptions(true))
+			if global && opt == "ign" {
+				gopts = append(gopts, fox.WithIgnoreTrailingSlash(true))
+			} else if global && opt == "red" {
+				gopts = append(gopts, fox.WithRedirectTrailingSlash(true))
+			}
+			rt, err := fox.New(gopts...)
+			if err != nil {
+				failTool("fox.New: %v", err)
+			}
+			for _, p := range pats {
+				var ro []fox.RouteOption
+				if !global && opt == "ign" {
+					ro = append(ro, fox.WithIgnoreTrailingSlash(true))
+				} else if !global && opt == "red" {
+					ro = append(ro, fox.WithRedirectTrailingSlash(true))
+				}
+				if _, err := rt.Handle("CONNECT", p, routeHandler(p), ro...); err != nil {
+					failTool("CONNECT route %s: %v", p, err)
+				}
+			}
+			for _, q := range []struct {
+				host, path, direct string
+			}{
+				{"", "/t/42", "/t/{id}"}, {"", "/t/42/", "/t/{id}/"}, {"", "/s", "/s"}, {"", "/s/", ""}, {"", "/s2", ""}, {"", "/s2/", "/s2/"},
+				{"", "/c/a/b", "/c/*{w}"}, {"", "/c2/a/b/", "/c2/*{w}/"}, {"", "/c2/a/b", ""}, {"h.example", "/t/42", "h.example/t/{id}"}, {"h.example", "/t/42/", ""}, // a slash-adjusted match below the matching host wins over the path-only route, and is unmatched for CONNECT
+			} {
+				got, _, w := obtainServe(rt, "CONNECT", q.host, q.path)
+				r.addCov("connect_requests_replayed", 1)
+				if got.Route != q.direct || (q.direct == "" && w.status >= 300 && w.status < 400) {
+					r.violation(fmt.Sprintf("serve CONNECT host=%q path=%q option=%s global=%v", q.host, q.path, opt, global), map[string]any{"kind": "vector", "routes": pats, "option": opt, "router_wide": global,
+						"prescribed": map[string]any{"served_by": q.direct, "note": "a CONNECT request is served by a direct match only; never redirected"},
+						"obtained":   map[string]any{"served_by": got.Route, "status": w.status}})
+				}
+			}
+		}
+	}
+}
